@@ -16,6 +16,11 @@
 // model says is not visible must print exactly like the never-defined control name u0 of the same
 // block (how an undefined name prints is not asserted).
 //
+// Besides standing directly in a file body, an include tag is also placed (type Place) inside a
+// v-for, as slot content of a wrapper component that renders its slot several times, and as a
+// member of a v-if / v-else-if / v-else chain: every evaluation must deliver the props per the
+// model, a member that is not chosen renders nothing, and nothing is visible afterwards.
+//
 // Deliberately not asserted (unspecified): a :required name that only the includer's scope
 // provides; partial output of a failed render; the wording of errors beyond "contains a missing
 // name"; the Go type of values read from YAML front-matter; interpolated or bound strings that
@@ -1969,6 +1974,139 @@ func enumTypes(includeFalsy bool, yield func(Case) bool) (n, skipped int) {
 	return n, skipped
 }
 
+func placeData(scalarRows bool) map[string]vals.V {
+	d := fixedData()
+	rows := []vals.V{vals.Int(7), vals.Int(0), vals.Str("s"), vals.Str(""), vals.Bool(false), vals.Num("float64", "2.5")}
+	if !scalarRows {
+		rows = append(rows, vals.List("[]any", vals.Int(1)), vals.Map(map[string]vals.V{"k": vals.Int(1)}), vals.Str("[1] x"))
+	}
+	d[rowsVar] = vals.List("[]any", rows...)
+	d["w1"] = vals.Int(0)
+	d["w2"] = vals.Str("zz")
+	d["ct"] = vals.Bool(true)
+	d["cf"] = vals.Bool(false)
+	return d
+}
+
+// enumPlace: one include in every placement (loop with / without own variable name and index;
+// slot content of the three wrappers in every form; member of a v-if chain in every role, chosen
+// and not) x how va1 is passed (omitted, static, interpolated / bound from the element, bound to
+// an includer variable) x front-matter x includer collision x required.
+func enumPlace(yield func(Case) bool) int {
+	var places [][]Place // each entry: the placements of the page's includes (1 or a joined chain)
+	for _, v := range []string{"", "va1"} {
+		for _, ix := range []string{"", "i9", "vb2"} {
+			places = append(places, []Place{{Kind: "loop", Var: v, Idx: ix}})
+		}
+	}
+	for _, k := range []string{"slot-loop-named", "slot-loop-default", "slot-twice"} {
+		for _, f := range slotForms[k] {
+			places = append(places, []Place{{Kind: k, Form: f}})
+		}
+	}
+	for _, c1 := range []string{"ct", "cf"} {
+		places = append(places, []Place{{Kind: "chain", Role: "if", Cond: c1}}, []Place{{Kind: "chain", Role: "if", Cond: c1, Form: "open"}},
+			[]Place{{Kind: "chain", Role: "else", Pre: c1}})
+		for _, c2 := range []string{"ct", "cf"} {
+			places = append(places, []Place{{Kind: "chain", Role: "elseif", Pre: c1, Cond: c2}},
+				[]Place{{Kind: "chain", Role: "if", Cond: c1}, {Kind: "chain", Role: "elseif", Cond: c2, Joined: true}, {Kind: "chain", Role: "else", Joined: true}},
+				[]Place{{Kind: "chain", Role: "elseif", Pre: c1, Cond: c2, Form: "open"}, {Kind: "chain", Role: "else", Joined: true}})
+		}
+	}
+	modes := []string{"omit", "static", "interp-elem", "bind-elem", "vbind-elem", "bind-d"}
+	n := 0
+	for pi, pls := range places {
+		for _, mode := range modes {
+			for z := 0; z < 8; z++ {
+				inFM, inData, isReq := z&1 != 0, z&2 != 0, z&4 != 0
+				c := Case{Names: []string{"va1", "vb2"}, Print: []string{"d1"}, Data: placeData(mode == "interp-elem"), NestedShort: true,
+					Comps: []Comp{{Name: "CardA", Wrap: (pi+z)%2 == 0}, {Name: "BoxB"}}}
+				if inData {
+					c.Data["va1"] = vals.Str("incl")
+				}
+				if inFM {
+					c.Comps[0].FM = map[string]vals.V{"va1": vals.Int(500)}
+				}
+				if isReq {
+					c.Comps[0].Req = []Req{{":required", "va1"}}
+				}
+				for k := range pls {
+					pl := pls[k]
+					inc := Inc{Comp: 0, Place: &pl}
+					if k > 0 {
+						inc.Comp = k % 2 // the members of a joined chain alternate between two components
+					}
+					ep := pl.elemPath()
+					if ep == "" {
+						ep = "w1" // chains: bound to an includer variable that is falsy
+					}
+					switch mode {
+					case "static":
+						inc.Props = []Prop{{Name: "va1", Mode: "static", Text: fmt.Sprintf("st%d", k)}}
+					case "interp-elem":
+						inc.Props = []Prop{{Name: "va1", Mode: "interp", Text: "p", Path: ep}}
+					case "bind-elem":
+						inc.Props = []Prop{{Name: "va1", Mode: "bind", Path: ep}}
+					case "vbind-elem":
+						inc.Props = []Prop{{Name: "va1", Mode: "vbind", Path: ep}}
+					case "bind-d":
+						inc.Props = []Prop{{Name: "va1", Mode: "bind", Path: "dm"}}
+					}
+					if pl.Idx != "" && mode != "omit" {
+						inc.Props = append(inc.Props, Prop{Name: "vb2", Mode: "bind", Path: pl.Idx})
+					}
+					c.Page = append(c.Page, inc)
+				}
+				n++
+				if !yield(c) {
+					return n
+				}
+			}
+		}
+	}
+	return n
+}
+
+// enumPool: a component with 9..12 bindings (props + front-matter) is followed by a tag that is
+// evaluated under freshly pushed scopes (loop iterations / slot content) whose blocks and whose
+// component print the names the big component bound; the pattern stands twice in the page. The
+// second component requires va1 or not; the includer has va1 or not.
+func enumPool(yield func(Case) bool) int {
+	after := []Place{{Kind: "loop"}, {Kind: "loop", Var: "vb2", Idx: "i9"}, {Kind: "slot-loop-named", Form: "var"}, {Kind: "slot-loop-named", Form: "destructure"},
+		{Kind: "slot-loop-default", Form: "plain"}, {Kind: "slot-twice", Form: "var"}, {Kind: "slot-twice", Form: "plain"}}
+	n := 0
+	for size := 9; size <= 12; size++ {
+		for _, pl := range after {
+			for z := 0; z < 8; z++ {
+				isReq, inData, propsHeavy := z&1 != 0, z&2 != 0, z&4 != 0
+				c := Case{Names: []string{"va1", "vb2"}, Print: []string{"d1"}, Data: placeData(false), NestedShort: true,
+					Comps: []Comp{{Name: "CardA", Wrap: size%2 == 0, FM: map[string]vals.V{}}, {Name: "BoxB"}}}
+				if inData {
+					c.Data["va1"] = vals.Str("incl")
+				}
+				if isReq {
+					c.Comps[1].Req = []Req{{":require", "va1"}}
+				}
+				big := Inc{Comp: 0, Props: []Prop{{Name: "va1", Mode: "static", Text: "bigA"}, {Name: "vb2", Mode: "bind", Path: "d0"}}}
+				for b := 0; len(big.Props)+len(c.Comps[0].FM) < size; b++ {
+					if propsHeavy && b%2 == 0 {
+						big.Props = append(big.Props, Prop{Name: fmt.Sprintf("zp%d", b), Mode: "static", Text: fmt.Sprintf("b%d", b)})
+					} else {
+						c.Comps[0].FM[fmt.Sprintf("zf%d", b)] = vals.Int(900 + b)
+					}
+				}
+				p1, p2 := pl, pl
+				c.Page = []Inc{big, {Comp: 1, Place: &p1}, big, {Comp: 1, Place: &p2, Props: []Prop{{Name: "vb2", Mode: "static", Text: "own"}}}}
+				n++
+				if !yield(c) {
+					return n
+				}
+			}
+		}
+	}
+	return n
+}
+
 // ---------------------------------------------------------------------------------------------
 // Tests
 // ---------------------------------------------------------------------------------------------
@@ -2005,6 +2143,8 @@ func TestProp(t *testing.T) {
 	full = full && n2 == 2500
 	n3 := enumChain(each("enum-chain"))
 	n4, skipped := enumTypes(!known.Open(kfFalsy), each("enum-types"))
+	n5 := enumPlace(each("enum-place"))
+	n6 := enumPool(each("enum-pool"))
 	if shard == 0 {
 		for k := 0; k < skipped; k++ {
 			rec.Excluded(kfFalsy)
@@ -2016,7 +2156,7 @@ func TestProp(t *testing.T) {
 		}
 	}
 	if full && !rec.Failed() {
-		rec.Exhaustive(fmt.Sprintf("flat: %d names x {5 prop modes x front-matter x includer x required} (%d); twice: same component twice, 5^4 prop modes x front-matter x includer (%d); chain: depth-3 chain, one name, 10 states per level x includer x leaf required (%d); types: 33 values (16 of them texts starting with [ or { that are not JSON) x 5 modes x 4 collisions + 7 JSON documents as static props (%d)", run.Pick(2, 3), n1, n2, n3, n4))
+		rec.Exhaustive(fmt.Sprintf("flat: %d names x {5 prop modes x front-matter x includer x required} (%d); twice: same component twice, 5^4 prop modes x front-matter x includer (%d); chain: depth-3 chain, one name, 10 states per level x includer x leaf required (%d); types: 33 values (16 of them texts starting with [ or { that are not JSON) x 5 modes x 4 collisions + 7 JSON documents as static props (%d); place: 39 placements (loop, slot content, chain member) x 6 ways of passing va1 x front-matter x includer x required (%d); pool: component with 9..12 bindings followed by loop / slot placements, twice (%d)", run.Pick(2, 3), n1, n2, n3, n4, n5, n6))
 	}
 
 	run.Rapid(t, rec, "random", genCase(rec, known), classify, check)
